@@ -89,10 +89,100 @@ const goodCookie = 0x2112A442
 type decodeInput struct {
 	Bytes []byte
 	Fam   string // family name for outcome classes
+	// Prev, when set, is the datagram the reused Message held just before (worst case for stale storage: the
+	// complete message of which Bytes is a prefix)
+	Prev []byte
 }
 
 func (d *decodeInput) replay() map[string]interface{} {
+	if d.Prev != nil {
+		return map[string]interface{}{"hex": hex.EncodeToString(d.Bytes), "prev": hex.EncodeToString(d.Prev)}
+	}
 	return map[string]interface{}{"hex": hex.EncodeToString(d.Bytes)}
+}
+
+// sweepPrefixAfterFull: a reused Message receives a complete valid message and then a proper prefix of the very
+// same message (a truncated datagram). Whatever the first one left in the Message's storage is exactly what
+// would complete the second, so any entry point that does not cut its buffer down to the new input accepts it.
+func sweepPrefixAfterFull(c *Ctx, fn func(in *decodeInput, seq int64)) {
+	var full [][]byte
+	for _, m := range c08Msgs[:11] {
+		full = append(full, m)
+	}
+	full = append(full, c01Big)
+	var seq int64
+	for _, x := range full {
+		var cuts []int
+		if len(x) <= 120 {
+			for k := 0; k < len(x); k++ {
+				cuts = append(cuts, k)
+			}
+		} else {
+			cuts = []int{0, 19, 20, 21, 24, 100, len(x) - 9, len(x) - 8, len(x) - 5, len(x) - 4, len(x) - 3, len(x) - 2, len(x) - 1}
+		}
+		for _, k := range cuts {
+			seq++
+			if !c.Mine(seq) {
+				continue
+			}
+			fn(&decodeInput{Fam: "prefix-after-full", Bytes: append([]byte(nil), x[:k]...), Prev: x}, seq)
+		}
+	}
+}
+
+// sweepMsgTypes runs fn on every 16-bit message type word in front of a header-only and a one-attribute message,
+// with the right magic cookie and with three wrong ones: no type may buy an exemption from the cookie.
+func sweepMsgTypes(c *Ctx, fn func(in *decodeInput, seq int64)) {
+	in := &decodeInput{Fam: "msgtypes"}
+	buf := make([]byte, 28)
+	var seq int64
+	for w := 0; w < 65536; w++ {
+		for ci, cookie := range []uint32{goodCookie, goodCookie ^ 0x01000000, 0, goodCookie + 1} {
+			for _, withAttr := range []bool{false, true} {
+				seq++
+				if !c.Mine(seq) {
+					continue
+				}
+				if ci == 0 && !withAttr && w%16 != 0 {
+					continue // the well-formed header-only case is covered for every word elsewhere; thinned here
+				}
+				n := 20
+				if withAttr {
+					n = 28
+					buf[20], buf[21], buf[22], buf[23] = 0x00, 0x06, 0x00, 0x03
+					buf[24], buf[25], buf[26], buf[27] = 'a', 'b', 'c', 0
+				}
+				putHeader(buf, uint16(w), n-20, cookie, byte(w>>3))
+				in.Bytes = buf[:n]
+				fn(in, seq)
+			}
+		}
+	}
+}
+
+// sweepLongTail: a small valid message followed by a long tail inside the buffer (the rest of a stream buffer): the
+// property tolerates bytes after the declared length, also when the buffer is longer than any 16-bit quantity.
+func sweepLongTail(c *Ctx, fn func(in *decodeInput, seq int64)) {
+	in := &decodeInput{Fam: "longtail"}
+	var seq int64
+	for _, total := range []int{65535, 65554, 65555, 65556, 65557, 65560, 65575, 65591, 65592, 70000, 131071, 131072, 131099, 1 << 20} {
+		for _, declared := range []int{0, 4, 36} {
+			seq++
+			if !c.Mine(seq) {
+				continue
+			}
+			buf := make([]byte, total)
+			for i := range buf {
+				buf[i] = byte(0x30 + i%7)
+			}
+			putHeader(buf, 0x0101, declared, goodCookie, 7)
+			if declared >= 4 {
+				buf[20], buf[21], buf[22], buf[23] = 0x00, 0x06, byte((declared-4)>>8), byte(declared-4)
+			}
+			in.Bytes = buf
+			fn(in, seq)
+		}
+	}
 }
 
 // nValues returns the buffer lengths tried for declared length l and a body
